@@ -9,7 +9,7 @@ def showPlanErr : PlanErr → String
 
 def showVErr : VErr → String
   | .mismatch => "mismatch" | .noHash => "no-hash" | .badWindow => "bad-window" | .badLen => "bad-len"
-  | .badOverlap => "bad-overlap" | .plan => "plan" | .tooLong => "too-long" | .beyondTail => "beyond-tail" | .truncatedSplit => "truncated-split" | .depth => "depth"
+  | .badOverlap => "bad-overlap" | .plan => "plan" | .stateLoop => "state-loop" | .tooLong => "too-long" | .beyondTail => "beyond-tail" | .truncatedSplit => "truncated-split" | .depth => "depth"
 
 def showPlan (r : Except PlanErr (List Range)) : String :=
   match r with
@@ -68,6 +68,21 @@ def handle (line : String) : String :=
     match ofHex key, ofHex iv, off.toNat?, ofHex src with
     | some k, some iv, some o, some s => toHex (Prim.aesCtr k (ctrIV iv o) s)
     | _, _, _, _ => "bad-op"
+  | ["chunk1", off, lim, key, iv, evs, image, master] =>
+    -- one `cdn.Chunk` call on a fresh schema, with scripted control events per CDN request
+    match off.toInt?, lim.toInt?, ofHex key, ofHex iv, ofHex image, ofHex master with
+    | some o, some l, some key, some iv, some image, some md =>
+      let ev? : Char → Option Ev := fun c =>
+        if c == 's' then some .serve else if c == 'r' then some .reupload else if c == 't' then some .tokenInvalid
+        else if c == 'm' then some .tokenInvalidFile else none
+      match (if evs == "-" then some [] else evs.toList.mapM ev?) with
+      | none => "bad-op"
+      | some es =>
+        let dec : Nat → Bytes → Bytes := fun off d => Prim.aesCtr key (ctrIV iv off) d
+        match chunkFresh (fun a b => (image.drop a).take b) dec md o l es with
+        | .ok d => s!"ok len={d.length} sha={toHex (Prim.sha256 d)}"
+        | .error e => "err " ++ showVErr e
+    | _, _, _, _, _, _ => "bad-op"
   | ["dl", mode, ps, batch, wins, key, iv, quirk, file, image] =>
     match ps.toNat?, batch.toNat?, parseNatList wins, ofHex key, ofHex iv, parseQuirk quirk, ofHex file, ofHex image with
     | some ps, some batch, some wins, some key, some iv, some quirk, some file, some image =>
